@@ -270,3 +270,90 @@ impl<'de> Deserialize<'de> for Vp {
         Ok(Vp(u64::deserialize(d)?))
     }
 }
+
+// ---------------------------------------------------------------- zero-sized / tiny element probe (C20)
+#[derive(PartialEq, Eq, Hash, Debug, Clone, Copy)]
+pub struct Z0;
+impl<'de> Deserialize<'de> for Z0 {
+    fn deserialize<D: Deserializer<'de>>(d: D) -> Result<Self, D::Error> {
+        let _ = u64::deserialize(d)?;
+        Ok(Z0)
+    }
+}
+#[derive(PartialEq, Eq, Hash, Debug, Clone, Copy)]
+pub struct B1(pub u8);
+impl<'de> Deserialize<'de> for B1 {
+    fn deserialize<D: Deserializer<'de>>(d: D) -> Result<Self, D::Error> {
+        Ok(B1(u64::deserialize(d)? as u8))
+    }
+}
+
+/// `cautious` caps the pre-allocation at 4096 elements: a table for 4096 elements has 8192 buckets
+/// and capacity 7168.  Anything beyond that was sized by the claimed length.
+const CAP_BOUND: usize = 7168;
+
+fn probe_one<T, F: Fn(ScriptDe) -> Result<(usize, usize), Err>>(what: &str, hint: Option<usize>, n: usize, f: F, bad: &mut usize, cases: &mut usize)
+where
+    T: Sized,
+{
+    *cases += 1;
+    let pairs: Vec<(u64, u64)> = (0..n as u64).map(|i| (i, i)).collect();
+    let r = std::panic::catch_unwind(std::panic::AssertUnwindSafe(|| f(ScriptDe { pairs, hint, err_at: None })));
+    match r {
+        Ok(Ok((cap, alloc))) => {
+            let bound_bytes = 8192 * std::mem::size_of::<T>().max(1) + 8192 + 64 + 64;
+            if cap > CAP_BOUND || alloc > bound_bytes {
+                *bad += 1;
+                println!("SERDEZST {} with {} elements claiming {:?}: capacity {} / {} bytes reserved (bound: capacity {}, {} bytes)", what, n, hint, cap, alloc, CAP_BOUND, bound_bytes);
+            }
+        }
+        Ok(Result::Err(e)) => {
+            *bad += 1;
+            println!("SERDEZST {} with {} elements claiming {:?}: unexpected error {}", what, n, hint, e);
+        }
+        Result::Err(p) => {
+            *bad += 1;
+            let msg = p.downcast_ref::<&str>().map(|s| s.to_string()).or(p.downcast_ref::<String>().cloned()).unwrap_or("?".into());
+            println!("SERDEZST {} with {} elements claiming {:?}: panicked ({})", what, n, hint, msg);
+        }
+    }
+}
+
+pub fn zst_probe() {
+    use hashbrown::{HashMap, HashSet};
+    type S = PlanBuild;
+    let hints: Vec<Option<usize>> = vec![None, Some(0), Some(1), Some(4096), Some(4097), Some(1_000_000), Some(1 << 24), Some(1 << 34),
+                                         Some(isize::MAX as usize), Some(usize::MAX)];
+    let (mut bad, mut cases) = (0usize, 0usize);
+    for h in &hints {
+        for n in [0usize, 1, 3] {
+            probe_one::<Z0, _>("HashSet<zero-sized>::deserialize", *h, n, |d| {
+                let s: HashSet<Z0, S, Ledger> = HashSet::deserialize(d)?;
+                Ok((s.capacity(), s.allocation_size()))
+            }, &mut bad, &mut cases);
+            probe_one::<(Z0, Z0), _>("HashMap<zero-sized, zero-sized>::deserialize", *h, n, |d| {
+                let s: HashMap<Z0, Z0, S, Ledger> = HashMap::deserialize(d)?;
+                Ok((s.capacity(), s.allocation_size()))
+            }, &mut bad, &mut cases);
+            probe_one::<Z0, _>("HashSet<zero-sized>::deserialize_in_place", *h, n, |d| {
+                let mut s: HashSet<Z0, S, Ledger> = HashSet::default();
+                Deserialize::deserialize_in_place(d, &mut s)?;
+                Ok((s.capacity(), s.allocation_size()))
+            }, &mut bad, &mut cases);
+            probe_one::<B1, _>("HashSet<1-byte>::deserialize", *h, n, |d| {
+                let s: HashSet<B1, S, Ledger> = HashSet::deserialize(d)?;
+                Ok((s.capacity(), s.allocation_size()))
+            }, &mut bad, &mut cases);
+            probe_one::<(B1, Z0), _>("HashMap<1-byte, zero-sized>::deserialize", *h, n, |d| {
+                let s: HashMap<B1, Z0, S, Ledger> = HashMap::deserialize(d)?;
+                Ok((s.capacity(), s.allocation_size()))
+            }, &mut bad, &mut cases);
+            probe_one::<B1, _>("HashSet<1-byte>::deserialize_in_place", *h, n, |d| {
+                let mut s: HashSet<B1, S, Ledger> = HashSet::default();
+                Deserialize::deserialize_in_place(d, &mut s)?;
+                Ok((s.capacity(), s.allocation_size()))
+            }, &mut bad, &mut cases);
+        }
+    }
+    println!("SERDEZSTSTAT cases={} bad={}", cases, bad);
+}
